@@ -145,6 +145,43 @@ def accept(wd, events, name):
 
 
 # ---------------------------------------------------------------------------------------------
+def observe_renamed(arg):
+    """(langA, langB, text): scan a folder holding the text under A's file name; rename the file to B's file name;
+    scan again with the first report as cache (as `codelimit scan` does). The event body is that of observe_input
+    for language B, with the measurements the SECOND scan reports for the renamed file."""
+    from codelimit.common.lexer_utils import lex
+    from codelimit.common.report.Report import Report
+    from codelimit.common.Scanner import scan_path
+    from codelimit.common.source_utils import filter_tokens
+
+    la, lb, text = arg
+    d = _scratch() / "rename"
+    shutil.rmtree(d, ignore_errors=True)
+    d.mkdir()
+    (d / LANGS[la]["file"]).write_text(text, newline="")
+    first = Report(scan_path(d))
+    (d / LANGS[la]["file"]).rename(d / LANGS[lb]["file"])
+    cb = scan_path(d, first)
+    ms = cb.files[LANGS[lb]["file"]].measurements() if LANGS[lb]["file"] in cb.files else []
+    tokens = lex(lexer_for(lb), text, False)
+    ev = {"meas": [{"name": m.unit_name, "sl": m.start.line, "sc": m.start.column, "el": m.end.line, "ec": m.end.column, "len": m.value} for m in ms]}
+    if ms:
+        lines = text.split("\n")
+        ev["nlines"] = len(lines)
+        ev["linelen"] = [len(x) for x in lines]
+        toks = []
+        for t in filter_tokens(tokens):
+            v = t.value
+            nl = v.count("\n")
+            el = t.location.line + nl
+            ec = (len(v) - v.rfind("\n")) if nl else t.location.column + len(v)
+            toks.append({"l": t.location.line, "c": t.location.column, "el": el, "ec": ec, "name": v if t.is_name() else ""})
+        ev["toks"] = toks
+    else:
+        ev.update(nlines=1, linelen=[0], toks=[])
+    return ev
+
+
 # CLI scenarios (C03): scan of a tree containing the file; check naming x cwd x quiet
 
 
@@ -152,6 +189,7 @@ NASTY = {
     "Python": [("trunc.py", b"def f(a):\n    return a\n\ndef g("), ("latin.py", "# r\xe9sum\xe9\ndef f():\n    return 'caf\xe9'\n".encode("latin-1")), ("ok.py", b"def f():\n    pass\n"),
                # findings: only a file with a function above 30 lines reaches the path arithmetic of the report
                ("long.py", ("def long_one(a):\n" + "".join(f"    v{i} = {i}\n" for i in range(40)) + "\ndef huge(a):\n" + "".join(f"    w{i} = {i}\n" for i in range(70))).encode()),
+               ("twice.py", ("def one(a):\n" + "".join(f"    v{i} = {i}\n" for i in range(40)) + "\ndef two(a):\n" + "".join(f"    w{i} = {i}\n" for i in range(40)) + "\ndef three(a):\n" + "".join(f"    u{i} = {i}\n" for i in range(40))).encode()),
                ("high.py", b"# " + bytes(range(0x80, 0x100)) + b"\ndef f():\n    return 1\n")],
     "JavaScript": [("arrow.js", b"const f = (cb = () => 0) => {\n  return cb();\n};\n"), ("latin.js", "// r\xe9sum\xe9\nfunction f() {\n  return 1;\n}\n".encode("latin-1"))],
     "C": [("deep.c", ("int f(void) {\n" + "{" * 60 + "\n").encode()), ("latin.c", "/* \xe9 */\nint f(void) {\n  return 1;\n}\n".encode("latin-1"))],
@@ -311,8 +349,22 @@ def run_generic(prop: str, tier: str) -> int:
     for k, r in enumerate(res):
         if r[0] == "timeout":
             res[k] = guarded(observe_input, jobs[k], 300)
+    n_renamed = 0
+    if want_tables:
+        # the same bytes under another language's file name, scanned with the report of the first scan as cache:
+        # what is reported for the renamed file must be well-formed for the language it has NOW
+        from ..langs import file_safe, harvested_texts
+
+        texts = [(lang, x) for lang in TRAITS for x in bases[lang]] + [(lang, tx) for lang, _o, tx in harvested_texts()]
+        rj = [(la, lb, tx) for la, tx in texts if file_safe(tx) for lb in TRAITS if lb != la]
+        rres = pmap(observe_renamed, rj, timeout=60, chunk=16)
+        for j, r in zip(rj, rres):
+            jobs.append((j[1], j[2], True))
+            meta.append((j[1], -3, [{"k": "renamed_from", "a": j[0]}]))
+            res.append(r)
+        n_renamed = len(rj)
     events = [make_event(k, r) for k, r in enumerate(res)]
-    log(f"[{prop}] G {len(muts)} mutation states x 7 languages -> {len(jobs)} inputs analysed, {t.s()}s")
+    log(f"[{prop}] G {len(muts)} mutation states x 7 languages -> {len(jobs)} inputs analysed ({n_renamed} of them renamed between two scans), {t.s()}s")
     cli_events, cli_meta = [], []
     if prop == "C03":
         nm = tlc.run("CheckNaming", tlc.cfg(spec="Spec"), wd, dump=True, coverage=False)
